@@ -20,3 +20,9 @@ pub broadcast axiom fn axiom_slice_len_bound(s: &[u8])
 // `Vec::into_boxed_slice` keeps the elements
 pub assume_specification<T, A: std::alloc::Allocator> [std::vec::Vec::<T, A>::into_boxed_slice] (v: std::vec::Vec<T, A>) -> (r: std::boxed::Box<[T], A>)
     ensures r@ == v@;
+// `Result::and_then`: an error is passed on unchanged, a success is handed to the closure (core::result definition)
+pub assume_specification<T, E, U, F> [std::result::Result::<T, E>::and_then] (r: std::result::Result<T, E>, f: F) -> (out: std::result::Result<U, E>)
+    where F: std::ops::FnOnce(T,) -> std::result::Result<U, E> + std::marker::Destruct,
+    requires r is Ok ==> f.requires((r->Ok_0,)),
+    ensures r is Err ==> out is Err && out->Err_0 == r->Err_0,
+            r is Ok ==> f.ensures((r->Ok_0,), out);
